@@ -228,6 +228,9 @@ def check_ls(ls, expected, where, out):
 def oracle_create(o, script, fault, expected, where, out):
     """o: observation of a Create over `script`; updates expected (key -> content)."""
     content, st, e = script_delivered(script)
+    if o["t"] == "timeout":
+        out.append(("call-did-not-return", "%s: Create still running after 30 s" % where))
+        return
     if st == 1 and not fault:
         if o["t"] != "key":
             out.append(("create-failed-on-a-good-input", "%s: %s %s" % (where, o["t"], o.get("msg", ""))))
@@ -251,7 +254,9 @@ def oracle_create(o, script, fault, expected, where, out):
 
 
 def oracle_read(o, key, expected, where, out, strict_absent=True):
-    if o["t"] == "found":
+    if o["t"] == "timeout":
+        out.append(("call-did-not-return", "%s: Open still running after 30 s" % where))
+    elif o["t"] == "found":
         got = seg_bytes(o.get("b"))
         if sha(got) != key:
             out.append(("open-returned-bytes-that-do-not-hash-to-the-key",
@@ -358,6 +363,9 @@ def oracle_sched(c):
 def oracle_free(c):
     out = []
     ok_keys = {}
+    if c.get("note") == "stuck":
+        n = sum(1 for o in c["results"] if o["t"] == "timeout")
+        return [("create-did-not-return", "%d of %d concurrent creates never returned" % (n, len(c["results"])))]
     for t, o in enumerate(c["results"]):
         oracle_create(o, c["scripts"][t], None, ok_keys, "goroutine %d" % t, out)
     possible = {}
@@ -539,12 +547,25 @@ def run(ck):
         rc, out, err = vlib.sh2([binp, "-seed", str(ck.seed), "-n", str(n), "-big", str(big), "-dir", scratch,
                                  "-deep", "2" if ck.thorough else "1"], timeout=1500)
         shutil.rmtree(scratch, ignore_errors=True)
-        if rc != 0:
-            ck.broken.append({"what": "harness run failed", "detail": err[-1500:]})
         for line in out.splitlines():
             if line.startswith("{"):
-                cases.append(json.loads(line))
+                try:
+                    cases.append(json.loads(line))
+                except ValueError:
+                    pass
         ck.timings["harness_cases"] = len(cases)
+        if rc != 0:
+            # the code under test took the harness down (fatal runtime error, deadlock): that is an
+            # observation of the run, reproducible with the same seed
+            head = [l for l in err.splitlines() if l.strip()][:1]
+            first = head[0][:200] if head else "exit status %d" % rc
+            ck.broken.append({"what": "harness run ended early", "detail": err[:1500]})
+            if rc != 3 and (first.startswith("fatal error") or first.startswith("panic")):
+                ck.violation("impl:crash:" + first.split(":")[0] + ":" + first.split(":")[-1].strip().replace(" ", "-"),
+                             "the code under test crashed or hung the harness after case %d: %s" % (len(cases) - 1, first),
+                             {"replay_harness": "c18 -seed %d -n %d -big %d" % (ck.seed, n, big),
+                              "stderr": err[:3000], "cases_before": len(cases),
+                              "expected": "every call returns", "observed": first})
 
     # thorough tier: the free-running and forced-interleaving streams once more under the race detector
     if ck.thorough and binp and shutil.which("gcc"):
